@@ -11,6 +11,7 @@ from ..streams import TracedStream
 from ..veq import veq
 
 LEVEL = "fault_enumeration"
+FOOT = 64
 RULE = ("messages = {trailing, Pointer-placed, Prefixed-enclosed, nested-after-header} x digest {Byte/sum8, Int32ub/crc32, Bytes(16)/md5, Bytes(20)/sha1, "
         "Bytes(32)/sha256, Byte[4]/md5 prefix as list} x inner {fixed, length-dependent, terminated, nested, array} x generated values; every message is "
         "built, parsed back, and re-parsed under EVERY single-bit flip; RawCopy instances at stream offsets 0..9, inside substreams, parse/build/"
@@ -52,6 +53,9 @@ def message(fmt, inner, digest):
         return ["Struct", [["hdr", B], ["msg", ["Prefixed", B, ["Struct", [["fields", ["RawCopy", ir]], ["checksum", ck]]]]], ["after", B]]]
     if fmt == "header":
         return ["Struct", [["magic", ["Const", tag(b"MG"), None]], ["fields", ["RawCopy", ir]], ["checksum", ck], ["trail", B]]]
+    if fmt == "footer":
+        # a fixed-position footer is written first: while the covered region is built the stream already extends beyond it
+        return ["Struct", [["foot", ["Pointer", FOOT, ["Const", tag(b"END"), None]]], ["fields", ["RawCopy", ir]], ["checksum", ck]]]
     raise ValueError(fmt)
 
 
@@ -65,7 +69,7 @@ def msg_value(fmt, v):
 
 def region_start(fmt, digest):
     dn = DIGESTS[digest][1]
-    return {"trailing": 0, "pointer": dn, "prefixed": 2, "header": 2}[fmt]
+    return {"trailing": 0, "pointer": dn, "prefixed": 2, "header": 2, "footer": 0}[fmt]
 
 
 def reference_verdict(fmt, inner, digest, msg):
@@ -84,6 +88,8 @@ def reference_verdict(fmt, inner, digest, msg):
         if len(msg) < 2 + n + 1:
             return ("reject",)
     if fmt == "header" and msg[:2] != b"MG":
+        return ("reject",)
+    if fmt == "footer" and msg[FOOT:FOOT + 3] != b"END":
         return ("reject",)
     start = region_start(fmt, digest)
     s = TracedStream(view, pos=start)
@@ -138,6 +144,30 @@ def run_message(ctx, case):
     if not veq(f.value, mk(ir).parse(enc)) or f.data != enc:
         ctx.violation("checksum-roundtrip-value:" + fmt, "parsed fields differ from what was built", case)
     ctx.count("messages")
+    # the documented way to modify a message: parse, edit fields.value, delete fields.data, build the same container (which
+    # still carries the digest that was parsed) - what comes out must verify and carry the digest of the new region
+    if case.get("value2") is not None:
+        v2 = untag(case["value2"])
+        ctx.ev()
+        f.value = v2
+        del f["data"]
+        enc2 = mk(ir).build(v2)
+        try:
+            msg2 = d.build(back)
+        except Exception as e:
+            ctx.violation("checksum-edit-workflow-raises:%s:%s" % (fmt, type(e).__name__), "parse, edit value, delete data, build raised %s: %s" % (type(e).__name__, e), case)
+            return
+        hb2 = mk(DIGESTS[digest][0]).build(HASHES[digest](enc2))
+        dpos2 = 0 if fmt == "pointer" else start + len(enc2)
+        if msg2[start:start + len(enc2)] != enc2 or msg2[dpos2:dpos2 + len(hb2)] != hb2:
+            ctx.violation("checksum-stale-after-edit:%s:%s" % (fmt, digest), "rebuilt message %s: region/digest are not the new value's encoding %s and its hash %s" % (msg2.hex()[:160], enc2.hex(), hb2.hex()), case)
+            return
+        try:
+            d.parse(msg2)
+        except Exception as e:
+            ctx.violation("checksum-stale-after-edit:%s:%s" % (fmt, digest), "the rebuilt message does not verify: %s" % type(e).__name__, case)
+            return
+        ctx.count("messages_rebuilt_after_edit")
     # every single-bit corruption
     variable = inner in ("var", "term", "nested", "varint", "aligned")
     for bit in range(len(msg) * 8):
@@ -157,6 +187,8 @@ def run_message(ctx, case):
             ctx.violation("corruption-foreign-exception:%s:%s" % (type(e).__name__, digest), "bit %d flipped: parse raised %s: %s" % (bit, type(e).__name__, e), dict(case, bit=bit))
             break
         where = "digest" if dpos <= bit // 8 < dpos + len(hb) else "region" if start <= bit // 8 < start + len(enc) else "framing"
+        if fmt == "footer" and where == "framing" and not (FOOT <= bit // 8 < FOOT + 3) and bit % 16:
+            continue            # the unused gap before the footer: sample it
         ctx.count("flips_in_" + where)
         if want[0] == "accept":
             ctx.count("flips_that_still_verify_per_reference")
@@ -202,6 +234,17 @@ def run_rawcopy(ctx, case):
         d, pre, post = C.FixedSized(len(enc) + 4, C.Struct("k" / C.Bytes(2), "r" / rc)), b"kk", b"\x00\x00"
         get = lambda r: r.r
         bv = None
+    elif wrapk.startswith("nt-"):
+        # inside a terminator-delimited region, with each of NullTerminated's options; the terminator is a byte the encoding lacks
+        T = bytes([[b for b in range(0xF0, 0x100) if b not in enc][0]])
+        inc, cons, req = wrapk == "nt-include", wrapk != "nt-noconsume", wrapk != "nt-norequire-eof"
+        nt = C.NullTerminated(C.Struct("r" / rc, "rest" / C.GreedyBytes), term=T, include=inc, consume=cons, require=req)
+        if wrapk == "nt-norequire-eof":
+            d, pre, post = C.Struct("k" / C.Bytes(2), "z" / nt), b"kk", b""
+        else:
+            d, pre, post = C.Struct("k" / C.Bytes(2), "z" / nt, "t" / C.Bytes(1 if cons else 2)), b"kk", T + b"\x09"
+        get = lambda r: r.z.r
+        bv = None
     data = bytes([0xEE]) * off + pre + enc + post
     s = TracedStream(data, pos=off)
     try:
@@ -225,7 +268,7 @@ def run_rawcopy(ctx, case):
         return
     if wrapk in ("plain", "struct") and s.pos != (o2 if wrapk == "plain" else o2 + 1):
         ctx.violation("rawcopy-position-after", "stream at %d after parse" % s.pos, case)
-    if off or wrapk in ("prefixed", "fixedsized"):
+    if off or wrapk in ("prefixed", "fixedsized") or wrapk.startswith("nt-"):
         ctx.nontrivial("rawcopy", inner, wrapk, off, case["value"])
     ctx.count("rawcopy_parses")
     if bv is None:
@@ -248,6 +291,17 @@ def run_rawcopy(ctx, case):
             ctx.violation("rawcopy-build-stream", "build_stream at offset %d wrote %s" % (off, s2.getvalue()[off:].hex()), case)
     except Exception as e:
         ctx.violation("rawcopy-build-stream-raises:" + type(e).__name__, repr(e), case)
+    # ... and into a buffer that already holds bytes beyond the region (a pre-sized image, a record rewritten in place)
+    filler = bytes(range(0x30, 0x30 + 48))
+    s3 = TracedStream(bytes([0xEE]) * off + filler, pos=off)
+    try:
+        d.build_stream(bv({"value": v}), s3)
+        out = s3.getvalue()
+        if out[off:off + len(want)] != want or out[off + len(want):] != filler[len(want):] or s3.pos != off + len(want):
+            ctx.violation("rawcopy-build-into-prefilled-stream", "build_stream at offset %d of a stream that extends beyond the region: wrote %s (position %d), expected %s (position %d)"
+                          % (off, out[off:off + len(want) + 4].hex(), s3.pos, want.hex(), off + len(want)), case)
+    except Exception as e:
+        ctx.violation("rawcopy-build-into-prefilled-stream-raises:" + type(e).__name__, repr(e), case)
     # a history on one caller-owned dict: build, edit the value, build again (the documented edit workflow)
     v2 = untag(case["value2"])
     if v2 is not None:
@@ -301,7 +355,7 @@ def run_case(ctx, case):
 
 def run(ctx):
     rng = ctx.rng
-    fmts = ["trailing", "pointer", "prefixed", "header"]
+    fmts = ["trailing", "pointer", "prefixed", "header", "footer"]
     combos = [(f, i, g) for f in fmts for i in INNERS for g in DIGESTS]
     per = ctx.pick(1, 12)
     if ctx.index == 0:
@@ -311,13 +365,13 @@ def run(ctx):
             continue
         for j in range(per):
             v = INNERS[i][1](rng)
-            case = {"kind": "message", "fmt": f, "inner": i, "digest": g, "value": tag(v)}
+            case = {"kind": "message", "fmt": f, "inner": i, "digest": g, "value": tag(v), "value2": tag(INNERS[i][1](rng))}
             run_case(ctx, case)
             if k % 40 == 0 and j == 0:
                 ctx.sample(case)
     k = 0
     for i in INNERS:
-        for wrapk in ("plain", "struct", "prefixed", "fixedsized"):
+        for wrapk in ("plain", "struct", "prefixed", "fixedsized", "nt-default", "nt-include", "nt-noconsume", "nt-norequire-eof"):
             for off in range(10):
                 k += 1
                 if not ctx.mine(k):
